@@ -510,7 +510,12 @@ func c30Run(ops []c30Op, hist []int, drain, verbose bool) (res c30Result) {
 			}
 		case 'S':
 			q.SetIndexed(c30Opts(op.id, op.ver), op.st)
-			it := m.findOrAdd(op.id)
+			// mark-indexed for a repository the queue does not track is ignored: the queue never
+			// holds an item it has no options for (it could only yield empty options)
+			it := m.find(op.id)
+			if it == nil {
+				break
+			}
 			if op.st != indexStateFail {
 				it.failed = false
 				it.indexed = it.ver == op.ver
@@ -687,6 +692,7 @@ func TestVerifC30(t *testing.T) {
 	{
 		vtime.SetVirtual(true, c30T0)
 		q := NewQueue(c30Backoff, c30Max, sglog.NoOp())
+		q.AddOrUpdate(c30Opts(1, 1))
 		q.SetIndexed(c30Opts(1, 1), indexStateFail)
 		if it := q.items[1]; it == nil || !it.backoff.backoffUntil.Equal(c30T0.Add(c30Backoff)) {
 			r.Violation("C30 TOOL: queue.go/backoff.go are not compiled against vtime",
